@@ -96,6 +96,8 @@ CHECKS.update({
         design_ref="6/C09"),
     "C16": dict(
         text="Lean: widen_keeps (on a dense version line a wider requires_python keeps every accepted wheel; via C01/C05), "
+             "widen_keeps_cuts / widen_or_keeps (the same for ANY order of bounds, PEP 440 included: widening by `|`, or to any "
+             "specifier admitting at least the same cuts, never loses a wheel), "
              "and_isEmpty_comm (the emptiness test is operand-order independent, structurally), compare_refl, "
              "compare_incompatible_symm, compare_not_higher_both, manylinux_nested (LOWER_OR_EQUAL targets have nested tag sets). "
              "The model of EnvSpec.compare/compatibility is compared with the real code on all ordered pairs of a 60-spec "
